@@ -165,6 +165,19 @@ Definition value_is (a b : value) : bool :=
   | _, _ => false
   end.
 
+(* what iterating a value means without asking the host: native containers and strs have their items, numbers /
+   None / bools / slices are not iterable, everything else (host objects, bytes) is the host's business *)
+Inductive iterability := ItItems (l : list value) | ItNot | ItHost.
+Definition iter_kind (v : value) : iterability :=
+  match v with
+  | VList l | VTuple l | VSet l => ItItems l
+  | VDict d => ItItems (map fst d)
+  | VConst (CStr s) => ItItems (map (fun c => VConst (CStr [c])) s)
+  | VConst (CBytes s) => if N.eqb s 0 then ItItems [] else ItHost
+  | VConst _ | VSlice _ _ _ => ItNot
+  | VObj _ => ItHost
+  end.
+
 Definition opt_default (o : option value) : value := match o with Some v => v | None => VNone end.
 
 Section Host.
@@ -244,11 +257,10 @@ Section Host.
                       end
     end.
   Definition to_list (fuel : nat) (v : value) : M (list value) :=
-    match v with
-    | VList l | VTuple l | VSet l => ret l
-    | VDict d => ret (map fst d)
-    | VSlice _ _ _ => raise ExTypeError
-    | _ => bind (do_prim PIter [v]) (fun it => drain fuel it [])
+    match iter_kind v with
+    | ItItems l => ret l
+    | ItNot => raise ExTypeError
+    | ItHost => bind (do_prim PIter [v]) (fun it => drain fuel it [])
     end.
 
   (* ---- items for a target list (7.2), as CPython 3.12 obtains them ---- *)
@@ -264,10 +276,10 @@ Section Host.
              | Fuel => Fuel
              end.
   Definition items_exact (f n : nat) (v : value) : M (list value) :=
-    match v with
-    | VList _ | VTuple _ | VSet _ | VDict _ | VSlice _ _ _ =>
-        bind (to_list f v) (fun items => if Nat.eqb (length items) n then ret items else raise ExValueError)
-    | _ => bind (do_prim PIter [v]) (fun it => take_exact n it [])
+    match iter_kind v with
+    | ItItems items => if Nat.eqb (length items) n then ret items else raise ExValueError
+    | ItNot => raise ExTypeError
+    | ItHost => bind (do_prim PIter [v]) (fun it => take_exact n it [])
     end.
   (* with a starred target CPython takes the leading items one by one and then builds list(iterator) *)
   Fixpoint take_some (n : nat) (it : value) (acc : list value) : M (list value) :=
@@ -280,10 +292,11 @@ Section Host.
                        end
     end.
   Definition items_star (f nb : nat) (v : value) : M (list value) :=
-    match v with
-    | VList _ | VTuple _ | VSet _ | VDict _ | VSlice _ _ _ => to_list f v
-    | _ => bind (do_prim PIter [v]) (fun it => bind (take_some nb it []) (fun first =>
-             bind (to_list f it) (fun rest => ret (first ++ rest))))
+    match iter_kind v with
+    | ItItems items => ret items
+    | ItNot => raise ExTypeError
+    | ItHost => bind (do_prim PIter [v]) (fun it => bind (take_some nb it []) (fun first =>
+                  bind (to_list f it) (fun rest => ret (first ++ rest))))
     end.
 
   (* 7.2 target lists: same number of items, or with one starred target at least as many as the others; items
@@ -323,11 +336,10 @@ Section Host.
   (* a [for] clause walks its iterable lazily: native containers element by element, host objects by next() *)
   Inductive cursor := CNative (l : list value) | CHost (it : value).
   Definition open_cursor (v : value) : M cursor :=
-    match v with
-    | VList l | VTuple l | VSet l => ret (CNative l)
-    | VDict d => ret (CNative (map fst d))
-    | VSlice _ _ _ => raise ExTypeError
-    | _ => bind (do_prim PIter [v]) (fun it => ret (CHost it))
+    match iter_kind v with
+    | ItItems l => ret (CNative l)
+    | ItNot => raise ExTypeError
+    | ItHost => bind (do_prim PIter [v]) (fun it => ret (CHost it))
     end.
   (* one unit of fuel per iteration; [body] returns the elements this iteration contributes *)
   Fixpoint for_each (fuel : nat) (c : cursor) (body : value -> M (list value)) (acc : list value) : M (list value) :=
